@@ -27,7 +27,8 @@ REQUIRED = {"events": 2000, "sweep_checks": 1000, "boundary_hits": 100, "expirie
 BUDGET_S = {"quick": 110, "thorough": 1500}
 
 UNITS = ["weeks", "days", "hours", "minutes", "seconds", "milliseconds", "microseconds"]
-ACCESS = ["run-step", "run-step-nobody", "run-steps", "session-results", "flat-session-results", "keep-alive", "begin-session", "end-begin"]
+ACCESS = ["run-step", "run-step-nobody", "run-steps", "session-results", "flat-session-results", "keep-alive", "begin-session", "end-begin",
+          "stream-open", "lock-direct"]   # stream-open: a stream-steps response left unread (the session lock stays held); lock-direct: bptk.lock() on the live object
 
 
 def gen_cases(tier, seed):
@@ -76,10 +77,16 @@ class Run:
         bptk.destroy = destroy
         self.nts = []
         self.ext_gone = {}
+        self.open_streams = []
 
     def close(self):
         from BPTK_Py import bptk
         bptk.destroy = self._orig_destroy
+        for r in self.open_streams:
+            try:
+                r.close()
+            except Exception:
+                pass
         self.srv.destroy_server(self.app)
         if self.clock:
             self.clock.uninstall()
@@ -164,10 +171,26 @@ class Run:
         if kind == "end-begin":
             w = self.access(iid, "begin-session")
             return w
-        method, url, body = self.body(kind)
-        kw = {"json": body} if body is not None else {}
-        resp = getattr(self.c, method)("/%s/%s" % (iid, url), **kw)
-        text = resp.get_data(as_text=True)
+        if kind == "lock-direct":
+            # not a request: the live object's session lock is taken (as a streaming request in flight would hold it); time does not stop for it
+            inst = self.app._instance_manager._instances.get(iid)
+            if inst is not None:
+                inst["instance"].lock()
+                self.counters["locks_held"] = self.counters.get("locks_held", 0) + 1
+            return self.no_sweep_check()
+        if kind == "stream-open":
+            resp = self.c.post("/%s/stream-steps" % iid, json=dict(numberSteps=3, settings={}), buffered=False)
+            if resp.status_code >= 400:
+                text = resp.get_data(as_text=True)
+            else:
+                text = ""
+                self.open_streams.append(resp)
+                self.counters["streams_left_open"] = self.counters.get("streams_left_open", 0) + 1
+        else:
+            method, url, body = self.body(kind)
+            kw = {"json": body} if body is not None else {}
+            resp = getattr(self.c, method)("/%s/%s" % (iid, url), **kw)
+            text = resp.get_data(as_text=True)
         refused = resp.status_code >= 400 and "valid instance id" in text
         idx = self.all_ids.index(iid)
         if iid in self.shadow:
@@ -183,7 +206,7 @@ class Run:
                     self.shadow.pop(iid)
                 else:
                     s["last"] = now
-            if iid in self.shadow and self.tmp and kind in ("run-step", "run-step-nobody", "run-steps") and resp.status_code == 200:
+            if iid in self.shadow and self.tmp and kind in ("run-step", "run-step-nobody", "run-steps", "begin-session") and resp.status_code == 200:   # (an unread stream has not saved anything yet)
                 self.shadow[iid]["ext"] = True
         else:
             ext = self.ext_gone.get(iid)
